@@ -102,6 +102,7 @@ func C03(c *Ctx) {
 
 	c.noDropRules("C03-3")
 	c.perIterationStateRule("C03-6", "/pkg/parser", "Parser", "GenerateBaseCode")
+	c.docDetachRule("C03-8")
 
 	r.Rule("C03-5", "lookupType: an unqualified function name of a notation is resolved with Scope().Innermost(pos).LookupParent(name, pos) of the package scope (so file-scope names from dot-imports resolve); a qualified one through the import table")
 	if fn := c.MustMethod("C03-5", "/pkg/parser", "Parser", "lookupType"); fn != nil {
@@ -286,6 +287,9 @@ func C11(c *Ctx) {
 	}
 
 	c.anchoredRegexpRule("C11-8", "parser.reGoBuildGen", "parser.reNotation")
+	c.docDetachRule("C11-9")
+	c.patternWitnessRule("C11-10")
+	c.lineSubjectRule("C11-11")
 
 	r.Rule("C11-6", "util.ExtractMatchComments visits every comment of the group (the loop has no exit other than exhaustion), appends every matching comment to the removed list and every non-matching one after the first match to the kept list")
 	if fn := c.MustFunc("C11-6", "/pkg/util", "ExtractMatchComments"); fn != nil {
